@@ -421,12 +421,95 @@ def rule_T3(ctx):
     ok = found is not None
     ctx.check(ok, "T3", "run.run re-raises a worker's exception", found[0].where(found[1]) if found else r.where(), "a worker exception is not re-raised (a failed chain would silently be missing from the trace)", construct=r.qualname, stmt="raise exception")
     pm = parents(r.node)
-    hs = [n for g in scope for n in ast.walk(g.node) if isinstance(n, ast.Try)]
+    def _guards_repo_work(g, t):
+        """Does the body of try block `t` run repository code or collect a worker's result (what a handler could
+        swallow)?  A handler around a pure standard-library probe (`os.sched_getaffinity`, an import) cannot."""
+        for c in [x for st_ in t.body for x in ast.walk(st_)]:
+            if isinstance(c, ast.Call):
+                if isinstance(c.func, ast.Name) and prog.resolve_function(c.func.id, g.module) is not None:
+                    return True
+                if isinstance(c.func, ast.Attribute) and c.func.attr in ("result", "exception", "submit", "map", "shutdown"):
+                    return True
+                if isinstance(c.func, ast.Attribute) and any(f_.name == c.func.attr for f_ in prog.functions.values()):
+                    return True
+            if isinstance(c, (ast.With, ast.For, ast.While)):
+                return True
+        return False
+
+    hs = [n for g in scope for n in ast.walk(g.node) if isinstance(n, ast.Try) and _guards_repo_work(g, n)]
     ctx.check(not hs, "T3", "run.run has no handler that could swallow a failure", r.where(hs[0]) if hs else r.where(), "run.run contains a try block", construct=r.qualname, stmt="try")
     w = calls(r.node, name="create_main_run_output")
     ok = len(w) == 1 and not guards_of(w[0], pm) and not any(isinstance(a, (ast.For, ast.While)) for a in _ancestors(w[0], pm))
     ctx.check(ok, "T3", "run.run writes the results once, unconditionally, after all chains", r.where(w[0]) if w else r.where(), "create_main_run_output is conditional, repeated or missing", construct=r.qualname, stmt="create_main_run_output(...)")
     ctx.analysed(m, c, r)
+
+
+def rule_T6(ctx):
+    """The run's timer raises on start() while running and on stop() while stopped.  `with timer:` pairs them on every
+    exit; explicit start() / stop() calls must do the same: on no path through a loop body (or a function) may the timer
+    be left running at a `break`, `continue`, `return` or at the end of the pass, or be started twice."""
+    prog = ctx.prog
+    ctx.rule("T6", "the timer is started and stopped in pairs on every path (with-block, or start()/stop() with no exit in between): a timer left running makes the next start() raise", 2)
+    timers = [ci for ci in prog.classes.values() if "start" in ci.methods and "stop" in ci.methods and "__enter__" in ci.methods]
+    if not timers:
+        raise AnalysisError("T6: no start/stop/__enter__ timer class found")
+    n_with = 0
+    for fi in prog.functions.values():
+        if fi.cls is not None and fi.cls in timers:
+            continue
+        explicit = [c for c in ast.walk(fi.node) if isinstance(c, ast.Call) and isinstance(c.func, ast.Attribute) and c.func.attr in ("start", "stop") and not c.args and not c.keywords and isinstance(c.func.value, ast.Name) and "timer" in c.func.value.id.lower()]
+        withs = [w for w in ast.walk(fi.node) if isinstance(w, ast.With) and any(isinstance(it.context_expr, ast.Name) and "timer" in it.context_expr.id.lower() for it in w.items)]
+        n_with += len(withs)
+        for w in withs:
+            ctx.ok("T6", "%s: `with %s:` pairs start and stop on every exit" % (fi.qualname.split("phyclone.")[-1], u(w.items[0].context_expr)), fi.where(w))
+        if not explicit:
+            continue
+        names = sorted({c.func.value.id for c in explicit})
+        bad = []
+
+        def walk(body, what):
+            from ..paths import _block as _paths_of_block
+
+            for steps, oc in _paths_of_block(body, 20000):  # (break / continue are outcomes of a loop body)
+                state = {n_: False for n_ in names}  # not running on entry
+                for st in steps:
+                    node = st.node
+                    if not isinstance(node, ast.AST):
+                        continue
+                    if st.kind == "with" and isinstance(node, ast.With):
+                        for it in node.items:
+                            if isinstance(it.context_expr, ast.Name) and it.context_expr.id in state and state[it.context_expr.id]:
+                                bad.append((node, "`with %s:` is entered while it is already running" % it.context_expr.id))
+                        continue
+                    scan = [node] if st.kind in ("stmt", "test", "iter") else []
+                    for root in scan:
+                        for c in sorted([x for x in ast.walk(root) if isinstance(x, ast.Call) and x in explicit], key=lambda x: (x.lineno, x.col_offset)):
+                            nm = c.func.value.id
+                            if c.func.attr == "start":
+                                if state[nm]:
+                                    bad.append((c, "%s.start() while it is already running" % nm))
+                                state[nm] = True
+                            else:
+                                if not state[nm]:
+                                    bad.append((c, "%s.stop() while it is not running" % nm))
+                                state[nm] = False
+                for nm, running in state.items():
+                    if running:
+                        last = steps[-1].node if steps and isinstance(steps[-1].node, ast.AST) else fi.node
+                        bad.append((last, "%s is left running when %s ends with `%s`: the next start() (or `with %s:`) raises RuntimeError('Already started')" % (nm, what, oc, nm)))
+
+        loops_ = [l for l in ast.walk(fi.node) if isinstance(l, (ast.For, ast.While)) and any(c in explicit for c in ast.walk(l))]
+        outer = [l for l in loops_ if not any(o is not l and any(x is l for x in ast.walk(o)) for o in loops_)]
+        for l in outer:
+            walk(l.body, "a pass of the loop at line %d" % l.lineno)
+        if not outer:
+            walk(fi.node.body, fi.name)
+        seen = set()
+        bad = [(n, w) for n, w in bad if not ((getattr(n, "lineno", 0), w) in seen or seen.add((getattr(n, "lineno", 0), w)))]
+        ctx.check(not bad, "T6", "%s: explicit start()/stop() of %s are paired on every path" % (fi.qualname.split("phyclone.")[-1], ", ".join(names)), fi.where(bad[0][0]) if bad else fi.where(), "; ".join(w for _, w in bad[:3]), construct=fi.qualname, stmt="timer pairing")
+        ctx.analysed(fi)
+    if n_with == 0 and not any(True for fi in prog.functions.values() for c in ast.walk(fi.node) if isinstance(c, ast.Call) and isinstance(c.func, ast.Attribute) and c.func.attr == "start" and isinstance(c.func.value, ast.Name) and "timer" in c.func.value.id.lower()):
+        raise AnalysisError("T6: the run no longer times its sweeps with a timer the rule can see")
 
 
 def rule_T5(ctx):
@@ -503,6 +586,7 @@ def run(ctx):
     ctx.soft(rule_T4)
     ctx.soft(rule_T3)
     ctx.soft(rule_T5)
+    ctx.soft(rule_T6)
     # "complete trees": no move loses a data point (C07.L1); "finite log_p_one": non-positive convolution
     # entries are floored before the logarithm on both back ends (C02.N4)
     from . import C02, C07
@@ -545,6 +629,8 @@ _R = "phyclone/run.py"
 _SB = "phyclone/smc/samplers/base.py"
 _CONC = "phyclone/mcmc/concentration.py"
 SELFTEST = [
+    {"name": "T6-timer-started-before-the-timed-loop", "kind": "break", "rule": "T6", "file": "phyclone/run.py", "old": "    trace = setup_trace(timer, tree, tree_dist)\n", "new": "    trace = setup_trace(timer, tree, tree_dist)\n    timer.start()\n"},
+    {"name": "benign-timer-started-and-stopped-before-the-loop", "kind": "benign", "file": "phyclone/run.py", "old": "    trace = setup_trace(timer, tree, tree_dist)\n", "new": "    trace = setup_trace(timer, tree, tree_dist)\n    timer.start()\n    timer.stop()\n"},
     {"name": "T2-outlier-prior-guard-on-the-other-term", "kind": "break", "rule": ["T2", "T3"], "file": "phyclone/tree/distributions.py", "old": "                if data_point.outlier_prob != 0:\n                    if node == outlier_node_name:", "new": "                if data_point.outlier_prob_not != 0:\n                    if node == outlier_node_name:"},
     {"name": "M4-to_dict-shares-index-map", "kind": "break", "rule": "M4", "file": "phyclone/tree/tree.py", "old": "\"node_idx\": self._node_indices.copy(),", "new": "\"node_idx\": self._node_indices,"},
     {"name": "T5-revert-F12", "kind": "break", "rule": "T5", "file": _CONC, "old": "        new_value = max(new_value, 1e-10)  # Catch numerical error\n", "new": "            new_value = max(new_value, 1e-10)  # Catch numerical error\n"},
